@@ -148,7 +148,7 @@ def c08_ring(p):
     return ring_of(p)
 
 
-def body_select_variables(ctx, conv):
+def body_select_variables(ctx, conv, bounds_as_coords=False):
     """Keeping only some data variables leaves the geometry, and therefore every polygon, identical."""
     if conv == 'ugrid':
         ds, cv, info = c08.mesh_dataset(ctx, 'tqp', ('edge_node', 'face_edge'), 1, 'nan')
@@ -156,6 +156,11 @@ def body_select_variables(ctx, conv):
     else:
         ds, cv, kinds = c08.grid_dataset(ctx, conv, (2, 2), as_coords=(conv != 'cf2d'))
         datavars = [n for n in ('temp', 'botz', 'flag', 'clock', 'v_face', 'v_left', 'id_node') if n in ds.data_vars][:4]
+        if bounds_as_coords:
+            # bounds variables promoted to coordinates, as xarray does with decode_coords='all'
+            bnds = [n for n in ds.data_vars if n.endswith('_bnds')]
+            ds = ds.set_coords(bnds)
+            cv = type(cv)(ds)
     keep = [n for k, n in enumerate(datavars) if bool(ctx.bool(f'keep{k}'))]      # forks: every subset
     ctx.note('subset', keep)
     sub = cv.select_variables(keep)
@@ -180,6 +185,8 @@ def cases(tier):
         yield c
     for conv in ('cf1d', 'cf2d', 'shoc_simple', 'shoc_standard', 'ugrid'):
         yield Case(f'select_variables:{conv}', body_select_variables, dict(conv=conv), max_paths=200)
+    for conv in ('cf1d', 'cf2d', 'shoc_simple'):
+        yield Case(f'select_variables:{conv}:bounds-as-coordinates', body_select_variables, dict(conv=conv, bounds_as_coords=True), max_paths=200)
 
 
 def run(tier, seed=0, replay=None, procs=None, only=None):
